@@ -346,6 +346,26 @@ class StrOps:
 
     def set_len(self, env, s, lo, hi):
         """Return s restricted to lo <= len <= hi (None if infeasible)."""
+        r = self._set_len(env, s, lo, hi)
+        if r is not None and r is not s and not s.fixed:
+            self.push_len_to_slices(env, r)
+        return r
+
+    def push_len_to_slices(self, env, base):
+        """Slices `x = s[a:-e]` taken before the length of s was known are as long as s allows (s.sid is kept by refinements)."""
+        blo = len(base.pre) if base.fixed else (base.lo or 0)
+        bhi = len(base.pre) if base.fixed else base.hi
+        for f in env.frames:
+            for k, v in list(f.items()):
+                if isinstance(v, Str) and not v.fixed and v.parent is not None and v.parent[0] == base.sid and v is not base:
+                    pa, pb = v.parent[1], v.parent[2]
+                    nlo = max(0, blo - pa - pb)
+                    nhi = None if bhi is None else max(0, bhi - pa - pb)
+                    if nlo > (v.lo or 0) or (nhi is not None and (v.hi is None or nhi < v.hi)):
+                        if self._set_len(env, v, nlo, nhi) is None:
+                            env.dead = True
+
+    def _set_len(self, env, s, lo, hi):
         l0, h0 = s.lo or 0, s.hi
         lo = max(lo, l0)
         hi = h0 if hi is None else (hi if h0 is None else min(hi, h0))
@@ -367,6 +387,14 @@ class StrOps:
         if hi is not None and lo == hi and s.parent is not None:
             bsid, pa, pb = s.parent
             base = env.find_sid(bsid)
+            if base is not None and base.fixed:
+                # the base has been cut to a fixed length already: the slice is those very cells
+                nb = len(base.pre)
+                if max(0, nb - pa - pb) != lo:
+                    return None
+                m = Str(base.pre[pa:nb - pb] if nb >= pa + pb else (), imprecise=s.imprecise, sid=s.sid)
+                env.replace_value(s, m)
+                return m
             if base is not None and not base.fixed:
                 b2 = self.set_len(env, base, lo + pa + pb, lo + pa + pb)
                 if b2 is None:
